@@ -247,6 +247,7 @@ def _theorem_names(src):
 
 
 def _axioms(out):
+    """Names listed by Print Assumptions (a name may stand alone on its line, its type wrapped below)."""
     ax = []
     inblock = False
     for line in out.splitlines():
@@ -257,10 +258,12 @@ def _axioms(out):
             inblock = False
             continue
         if inblock:
-            m = re.match(r"^([A-Za-z_][A-Za-z_0-9'.]*)\s*:", line)
+            if line.startswith(" "):
+                continue  # continuation of a type
+            m = re.match(r"^([A-Za-z_][A-Za-z_0-9'.]*)\s*(:|$)", line)
             if m:
                 ax.append(m.group(1))
-            elif line and not line.startswith(" "):
+            else:
                 inblock = False
     return ax
 
